@@ -59,3 +59,35 @@ package server
 //@   loop 0 invariant nolocks: holdsNone() && sta != nil
 //@   loop 1 invariant locked: holdsOnly(sta.usedRandomM) && sameSlice(sta.UsedRandom, acq(sta.UsedRandom)) && sta.UsedRandom != nil
 //@   loop 1 invariant retention: forall k [32]byte :: acq(mapHas(sta.UsedRandom, k)) && int(acq(sta.UsedRandom[k])) * 1000000000 + 360000000000 > clock() ==> mapHas(sta.UsedRandom, k) && sta.UsedRandom[k] == acq(sta.UsedRandom[k])
+
+// ---------------------------------------------------------------------------------------------
+// C09: parsers of attacker-controlled first packets. No precondition on the input bytes; every
+// index/slice expression either is proved in range or its panic is proved to be recovered inside
+// the function (the obligation class "panic" covers panics that would escape).
+// ---------------------------------------------------------------------------------------------
+//@ func parseKeyShare
+//@   ensures keyLen: err == nil ==> len(ret) == 32
+
+// readFirstPacket / connReadLine: exactly the bytes consumed from the peer are in the buffer (so that
+// goWeb can replay them), nothing is written to the peer, a connection that is to be redirected is left
+// open with no read deadline armed, and no input length or content reaches an out-of-range index.
+//@ func connReadLine
+//@   requires conn != nil
+//@   ensures count: 0 <= ret0 && ret0 <= len(buf) && inpos(conn) == old(inpos(conn)) + ret0
+//@   ensures bytes: forall k int :: 0 <= k && k < ret0 ==> buf[k] == inbyte(conn, old(inpos(conn)) + k)
+//@   ensures line: ret1 == nil ==> ret0 >= 1 && buf[ret0-1] == 10
+//@   modifies elems(buf), connin(conn)
+//@   loop 0 invariant progress: 0 <= i && i <= len(buf) && inpos(conn) == old(inpos(conn)) + i
+//@   loop 0 invariant bytes: forall k int :: 0 <= k && k < i ==> buf[k] == inbyte(conn, old(inpos(conn)) + k)
+
+//@ func readFirstPacket
+//@   requires conn != nil && len(buf) >= 5
+//@   ensures count: 0 <= ret0 && ret0 <= len(buf) && inpos(conn) == old(inpos(conn)) + ret0
+//@   ensures bytes: forall k int :: 0 <= k && k < ret0 ==> buf[k] == inbyte(conn, old(inpos(conn)) + k)
+//@   ensures stillOpen: ret2 ==> closedconn(conn) == old(closedconn(conn))
+//@   ensures noDeadline: !deadlineArmed(conn)
+//@   ensures okMeansRedirectable: ret3 == nil ==> ret2 && ret1 != nil
+//@   ensures wholeRecord: ret3 == nil && buf[0] == 22 ==> ret0 == 5 + int(buf[3])*256 + int(buf[4])
+//@   modifies elems(buf), connin(conn), connclosed(conn), conndeadline(conn)
+//@   loop 0 invariant progress: 1 <= bufOffset && bufOffset <= len(buf) && inpos(conn) == old(inpos(conn)) + bufOffset && closedconn(conn) == old(closedconn(conn))
+//@   loop 0 invariant bytes: forall k int :: 0 <= k && k < bufOffset ==> buf[k] == inbyte(conn, old(inpos(conn)) + k)
